@@ -39,6 +39,17 @@ class ExportConfig:
         else:
             return name
     
+    def _parse_array(self, values, scalar):
+        """ Internal routine that writes (nested) lists in the DIP array notation
+        """
+        strings = []
+        for value in values:
+            if isinstance(value, (list, tuple, np.ndarray)):
+                strings.append(self._parse_array(value, scalar))
+            else:
+                strings.append(scalar(value))
+        return "[" + ",".join(strings) + "]"
+
     def select(self, query:str=None, tags:list=None):
         """ Select nodes from an environment
         :param str query: Node query string
@@ -51,25 +62,31 @@ class ExportConfig:
         """
         lines = []
         for name, param in self.data.items():
-            value = param.value
             if isinstance(param, StringType):
                 dtype = StringNode.keyword
-                value = f"\"{value}\""
+                scalar = lambda v: f"\"{v}\""
             elif isinstance(param, BooleanType):
                 dtype = BooleanNode.keyword
-                value = "true" if value else "false"
+                scalar = lambda v: "true" if v else "false"
             elif isinstance(param, IntegerType):
                 dtype = IntegerNode.keyword
                 if param.unsigned:
                     dtype = "u"+dtype
                 if param.precision!=IntegerType.precision:
                     dtype += str(param.precision)
-                value = int(param.value)
+                scalar = lambda v: str(int(v))
             elif isinstance(param, FloatType):
                 dtype = FloatNode.keyword
                 if param.precision!=FloatType.precision:
                     dtype += str(param.precision)
-                value = float(param.value)
+                scalar = lambda v: str(float(v))
+            if isinstance(param.value, (list, tuple, np.ndarray)):
+                dtype += "[" + ",".join(str(s) for s in np.shape(param.value)) + "]"
+                value = self._parse_array(param.value, scalar)
+                if " " in value:    # unquoted DIP values end at the first blank
+                    value = f"'{value}'"
+            else:
+                value = scalar(param.value)
             if param.unit:
                 lines.append(f"{name} {dtype} = {value} {param.unit}")
             else:
